@@ -247,13 +247,17 @@ func VerifC09_Clawback() {
 	zz.Assert(zz.CoinsEq(na.GetVestedCoins(bt), vRef(start, oldVesting, t).Min(vestedAtC)), "after clawback vested coins are the events up to the clawback")
 	locked := na.LockedCoins(bt)
 	zz.Assert(zz.CoinsEq(locked, na.OriginalVesting.Sub(unlockedNew.Min(na.GetVestedCoins(bt))...)), "after clawback (no delegations) locked = kept - unlockedVested")
-	// validity as the account itself defines it, whenever anything is kept. Validate() insists on start < end, which a
+	// validity as the account itself defines it (auth's genesis validation runs it on every exported account). Validate() insists on start < end, which a
 	// kept schedule whose events all sit on the start instant cannot satisfy; every account the chain can create has a
 	// first lockup period of positive length (messages require length >= 1, liquid-vesting redeem passes the positive
 	// remainder of the current period), so that is the domain of this clause.
-	if !na.OriginalVesting.IsZero() && len(oldLockup) > 0 && oldLockup[0].Length >= 1 {
-		zz.Assert(na.Validate() == nil, "a clawback that keeps coins leaves an account accepted by its own Validate()")
-		zz.Reach("kept")
+	if len(oldLockup) > 0 && oldLockup[0].Length >= 1 {
+		zz.Assert(na.Validate() == nil, "a clawback leaves an account accepted by its own Validate(), whether it keeps coins or takes the whole grant")
+		if na.OriginalVesting.IsZero() {
+			zz.Reach("?emptied")
+		} else {
+			zz.Reach("kept")
+		}
 	}
 	zz.Reach("end")
 }
